@@ -78,6 +78,9 @@ def generate(rng, tier):
             f = pv.lst([f, rand_val(rng, 2)])
         r = None if rng.random() < 0.1 else rand_val(rng, 3)
         cases.append(dict(filter=f, recorded=r))
+    for c in cases:
+        if json_native(c["filter"]) and json_native(c["recorded"]):
+            c["json_native"] = True
     return cases
 
 
@@ -93,13 +96,26 @@ def has_class_pattern(j):
     return False
 
 
+def json_native(j):
+    """values that survive json.dumps/json.loads unchanged (no class references, str-keyed dicts only)"""
+    if j is None:
+        return True
+    if j["t"] == "cls":
+        return False
+    if j["t"] == "list":
+        return all(json_native(x) for x in j["v"])
+    if j["t"] == "dict":
+        return all(json_native(v) for _, v in j["v"])
+    return True
+
+
 def to_gallina(case, obs):
     if case.get("nocoq") or has_class_pattern(case["filter"]):
         return None
     if "driver_exception" in obs:
-        return "Case MNone None 3 3"
+        return "Case MNone None 3 3 9"
     rec = "None" if case["recorded"] is None else "(Some %s)" % pv.to_mval(case["recorded"])
-    return "Case %s %s %d %d" % (pv.to_mval(case["filter"]), rec, obs["value"], obs["meta"])
+    return "Case %s %s %d %d %d" % (pv.to_mval(case["filter"]), rec, obs["value"], obs["meta"], obs.get("s3", 9))
 
 
 def explain(case, obs):
@@ -148,6 +164,9 @@ def direct(case, obs):
             fails.append(("non-bool", obs["err"]))
     if obs["again"] != obs["value"]:
         fails.append(("nondeterministic", "two evaluations differ"))
+    if obs.get("s3", 9) != 9 and obs["s3"] != want:
+        fails.append(("s3-content-filter-differs", "the S3 content filter answered %s for filter=%s stored metadata value=%s, the "
+                      "documented meaning says %s" % (obs["s3"], case["filter"], case["recorded"], want)))
     return fails
 
 
